@@ -214,6 +214,8 @@ def run_case(case, ctx):
     # lists / tuples that hold NumPy integers next to python integers beyond 64 bits (numpy would choose float64 for them)
     _try(lambda: Fxp([np.int64(-1 if s else 1), ks[0]], s, n, nf, raw=True, overflow=o))
     _try(lambda: Fxp((np.int8(3), ks[1], np.uint64(2 ** 63 + 1)), s, n, 0, overflow=o))
+    _try(lambda: Fxp([np.uint64(3), 2 ** 62 + 1 + rng.randint(0, 99)], s, n, nf, raw=True, overflow=o))
+    _try(lambda: Fxp((np.uint64(5), -(2 ** 60) - 1 if s else 2 ** 60 + 1, 2 ** 53 + 1), s, n, 0, overflow=o))
     ctx.floor_hit(('list-numpy-and-python-integers',))
     # render / parse / bitwise at this width
     inr = [rng.choice([lo, hi, -1 if s else hi, 0, rng.randint(lo, hi), rng.randint(lo, hi)]) for _ in range(3)]
